@@ -132,9 +132,15 @@ fn publication_diags(p: &Value) -> Vec<Value> {
 }
 
 /// Runs one session; returns problems (clause, detail).
-fn run_session(sc: &Scenario, h: &[usize], dir: &PathBuf, check_every_step: bool) -> Result<Vec<(String, String)>, SessionError> {
+fn run_session(sc: &Scenario, h: &[usize], real: &PathBuf, via_link: bool, check_every_step: bool) -> Result<Vec<(String, String)>, SessionError> {
     let disk: Vec<(String, String)> = sc.disk.iter().map(|(n, t)| (n.to_string(), t.clone())).collect();
-    write_files(dir, &disk);
+    write_files(real, &disk);
+    // the editor may name the workspace through a symbolic link: the names in its URIs are the documents' names
+    let link = PathBuf::from(format!("{}-link", real.to_string_lossy()));
+    if via_link && std::fs::symlink_metadata(&link).is_err() {
+        std::os::unix::fs::symlink(real, &link).map_err(|e| SessionError::Stuck(format!("symlink {link:?}: {e}")))?;
+    }
+    let dir = if via_link { &link } else { real };
     let mut model = Model { dir: dir.clone(), disk: disk.into_iter().collect(), buffers: BTreeMap::new(), root: None };
     let mut s = Session::start(dir)?;
     let mut problems: Vec<(String, String)> = Vec::new();
@@ -211,11 +217,19 @@ fn run_session(sc: &Scenario, h: &[usize], dir: &PathBuf, check_every_step: bool
     Ok(problems)
 }
 
-fn eval(sc: &Scenario, h: &[usize], dir: &PathBuf, every: bool) -> Vec<Failure> {
-    let case = json!({ "history": h, "witness": show(h, sc) });
-    let mk = |c: &str, d: String| Failure::new(c, show(h, sc), d, case.clone());
+fn witness(h: &[usize], sc: &Scenario, via_link: bool) -> String {
+    if via_link {
+        format!("(workspace named through a symbolic link) {}", show(h, sc))
+    } else {
+        show(h, sc)
+    }
+}
+
+fn eval(sc: &Scenario, h: &[usize], dir: &PathBuf, via_link: bool, every: bool) -> Vec<Failure> {
+    let case = json!({ "history": h, "via_link": via_link, "witness": witness(h, sc, via_link) });
+    let mk = |c: &str, d: String| Failure::new(c, witness(h, sc, via_link), d, case.clone());
     let mut out: Vec<Failure> = Vec::new();
-    match guard(|| run_session(sc, h, dir, every)) {
+    match guard(|| run_session(sc, h, dir, via_link, every)) {
         Ok(Ok(problems)) => {
             for (c, d) in problems {
                 if !out.iter().any(|f| f.clause == c) {
@@ -252,13 +266,15 @@ fn explore(sc: &Scenario, depth: u32, core: &[usize], ctx: &mut Ctx) {
             true
         });
     }
-    for h in histories.iter().map(|h| h.as_slice()) {
+    // C12: every history twice, the workspace named by its own path and through a symbolic link
+    let modes: &[bool] = if sc.id == "C12" { &[false, true] } else { &[false] };
+    for (h, via_link) in histories.iter().flat_map(|h| modes.iter().map(move |&l| (h.as_slice(), l))) {
         let go = (|| {
         if h.is_empty() {
             return true;
         }
-        ctx.trace(|| json!({ "history": h, "witness": show(h, sc) }));
-        let fails = eval(sc, h, &dir, sc.id == "C12");
+        ctx.trace(|| json!({ "history": h, "via_link": via_link, "witness": witness(h, sc, via_link) }));
+        let fails = eval(sc, h, &dir, via_link, sc.id == "C12");
         let nontrivial = h.len() >= 2;
         ctx.case(nontrivial);
         ctx.add("traces", 1);
@@ -282,6 +298,7 @@ fn explore(sc: &Scenario, depth: u32, core: &[usize], ctx: &mut Ctx) {
         }
     }
     ctx.max("states", states.len() as u64);
+    let _ = std::fs::remove_file(format!("{}-link", dir.to_string_lossy()));
     let _ = std::fs::remove_dir_all(&dir);
 }
 
@@ -339,7 +356,7 @@ impl Engine for C11 {
             return crate::c08::eval_publication_order(case);
         }
         let dir = session_dir("C11", 99);
-        let r = eval(&c11_scenario(), &history_of(case), &dir, false);
+        let r = eval(&c11_scenario(), &history_of(case), &dir, false, false);
         let _ = std::fs::remove_dir_all(&dir);
         r
     }
@@ -348,7 +365,8 @@ impl Engine for C11 {
             return crate::c08::shrink_scenario(case);
         }
         let sc = c11_scenario();
-        tgv_core::shrink::deletions(&history_of(case)).into_iter().map(|h| json!({ "history": h, "witness": show(&h, &sc) })).collect()
+        let via_link = case["via_link"].as_bool().unwrap_or(false);
+        tgv_core::shrink::deletions(&history_of(case)).into_iter().map(|h| json!({ "history": h, "via_link": via_link, "witness": witness(&h, &sc, via_link) })).collect()
     }
 }
 
@@ -361,7 +379,7 @@ impl Engine for C12 {
     }
     fn rule(&self, tier: Tier) -> String {
         format!(
-            "every session of <= {} messages over the 12 letters below and every session of {} messages over 8 of them (a with and without its include, b's two buffers, b including a back, b emptied, both re-opened): {{a.td := 5 texts (three include b.td, one does not, so that b.td leaves and re-enters the workspace while open), b.td := 5 texts, one of which includes a.td back so that the include walk reaches the edited document again; both documents also have the empty text, and each can be closed and opened again; a third document in a subdirectory includes the second through `..`; versions count per document, the first open of a tab carries version 10, a re-opened tab starts again at 1}}, the included document is named `b é.td` (its URI carries percent-escapes); the on-disk b.td declares DiskB and the editor's b.td declares BufB / BufB2 (a's texts refer to one of them), \
+            "every session of <= {} messages over the 12 letters below and every session of {} messages over 8 of them (a with and without its include, b's two buffers, b including a back, b emptied, both re-opened): {{a.td := 5 texts (three include b.td, one does not, so that b.td leaves and re-enters the workspace while open), b.td := 5 texts, one of which includes a.td back so that the include walk reaches the edited document again; both documents also have the empty text, and each can be closed and opened again; a third document in a subdirectory includes the second through `..`; versions count per document, the first open of a tab carries version 10, a re-opened tab starts again at 1}}, the included document is named `b é.td` (its URI carries percent-escapes); every session runs twice, the editor naming the workspace directory by its own path and through a symbolic link to it; the on-disk b.td declares DiskB and the editor's b.td declares BufB / BufB2 (a's texts refer to one of them), \
              first message to a document = didOpen, later = didChange; after EVERY message the latest publications and the documentSymbol response of every open document must match the reference session model \
              (texts = disk overlaid by open buffers, root = last touched document). states = distinct (buffers, root) configurations; transitions = messages; non-trivial = sessions of >= 2 messages.",
             tier.pick(3, 4),
@@ -377,12 +395,14 @@ impl Engine for C12 {
     }
     fn eval_case(&self, case: &Value) -> Vec<Failure> {
         let dir = session_dir("C12", 99);
-        let r = eval(&c12_scenario(), &history_of(case), &dir, true);
+        let r = eval(&c12_scenario(), &history_of(case), &dir, case["via_link"].as_bool().unwrap_or(false), true);
+        let _ = std::fs::remove_file(format!("{}-link", dir.to_string_lossy()));
         let _ = std::fs::remove_dir_all(&dir);
         r
     }
     fn shrink(&self, case: &Value, _clause: &str) -> Vec<Value> {
         let sc = c12_scenario();
-        tgv_core::shrink::deletions(&history_of(case)).into_iter().map(|h| json!({ "history": h, "witness": show(&h, &sc) })).collect()
+        let via_link = case["via_link"].as_bool().unwrap_or(false);
+        tgv_core::shrink::deletions(&history_of(case)).into_iter().map(|h| json!({ "history": h, "via_link": via_link, "witness": witness(&h, &sc, via_link) })).collect()
     }
 }
